@@ -1,13 +1,14 @@
 (* C16 — Process tomography and gate fidelity agree with the library's own references.
    Statements only; every proof is [exact <lemma>]
-   (Proofs/TomoProcP.v, Proofs/TomoProcG.v, Proofs/TomoProcW.v).
+   (Proofs/TomoProcP.v one qubit and pinned; TomoProcG.v gradient; TomoProcN.v LI and forward
+   model for n qubits; TomoProcF.v gate fidelity for n qubits; TomoProcW.v witnesses).
 
    Scalars: any commutative *-ring [o] with an imaginary unit [ii], hh = 1/sqrt 2
    (2*hh*hh = 1), inverses of units, decidable equality ([TomoRing], Base/QI2.v);
    instances: Q(sqrt 2)(i) (Base/QI2.v, executable; the witnesses) and the complex
    numbers over Coq's reals (Base/QI2R.v).  [req] is the list of measurement settings
-   in the order Python's list(set(...)) happened to produce.  [lunit o 2 V] is
-   V^+ V = 1.  "Noiseless data" ([process_ideal]): for every requested (input,
+   in the order Python's list(set(...)) happened to produce.  [lunit o d V] is
+   V^+ V = 1 on d x d.  "Noiseless data" ([process_ideal]): for every requested (input,
    setting) the dual-rail outcome frequencies given by the Born rule for the state
    V rho_in V^+ after the basis change of the setting.
 
@@ -18,8 +19,8 @@
    WHAT IS PROVED:
      - every number of qubits n >= 1: LI on noiseless data returns choi_from_unitary(V) for
        EVERY 2^n x 2^n matrix V with V^+V = 1 (complex, non-symmetric, entangling, ...);
-     - one qubit: gate fidelity is (|tr(U^+ V)|^2 + d)/(d(d+1)) for EVERY target matrix U, one
-       for U = V;
+     - every n >= 1: gate fidelity is (|tr(U^+ V)|^2 + d)/(d(d+1)), d = 2^n, for EVERY target
+       matrix U, one for U = V;
      - every n: the MLE forward model _p_vec at choi_from_unitary(V) gives the Born
        probabilities of the data (EVERY matrix V), it is linear in the Choi matrix, the matrix
        _gradient returns satisfies tr(G D) = d/dt cost(choi + t D) for every direction D, the
@@ -30,12 +31,12 @@
    OUTSIDE PROOF (oracle-tested by harness/c16.py on generated unitaries only):
      convergence of the projected-gradient iteration pgdb / _cptp_proj, positivity after
      the eigh clipping of _cp_proj, the ">= 0.99 fidelity" of the MLE estimate,
-     process_fidelity (scipy sqrtm), two-qubit gate fidelity (model and code are compared on
-     every run, n = 2 included), and the photonic level (dual-rail
-     frequencies of the circuits = Born probabilities of V rho V^+). *)
+     process_fidelity (scipy sqrtm; "fidelity one" of the LI result follows from the LI theorem
+     only with the sqrtm contract of C15), and the photonic level (dual-rail frequencies of the
+     circuits = Born probabilities of V rho V^+). *)
 From Coq Require Import ZArith List Bool Arith Lia Permutation Reals QArith Qcanon.
 From LW Require Import Base.Sx Base.Num Base.Sums Base.Mat Base.QI2 Base.QI2R Model.Tomo
-  Proofs.TomoStateP Proofs.TomoProcP Proofs.TomoProcG Proofs.TomoProcN Proofs.TomoProcW.
+  Proofs.TomoStateP Proofs.TomoProcP Proofs.TomoProcG Proofs.TomoProcN Proofs.TomoProcF Proofs.TomoProcW.
 Import ListNotations.
 Open Scope nat_scope.
 
@@ -96,29 +97,31 @@ Proof. exact (fun K o ii hh TR => li_pinned_symmetric (TR:=TR)). Qed.
 Print Assumptions C16_li_eq_reference_pinned_partial.
 
 (* ------------------------------------------------------------------- gate fidelity *)
-(* GateFidelity.process(U) on the noiseless data of V, before np.real: for EVERY target
-   matrix U (unitary or not) the value is (|tr(U^+ V)|^2 + d) / (d (d + 1)), d = 2.
-   [i3] is 1/3 (the ring need not have characteristic 0: its existence is a hypothesis). *)
+(* GateFidelity.process(U) on the noiseless data of V, before np.real: for EVERY n >= 1 and
+   EVERY 2^n x 2^n target matrix U (unitary or not) the value is
+   (|tr(U^+ V)|^2 + d) / (d (d + 1)), d = 2^n.  [inv] is 1/(d+1) (the ring need not have
+   characteristic 0: its existence is a hypothesis; 1/3 for one qubit, 1/5 for two). *)
 Theorem C16_gate_fidelity_formula :
   forall (K : Type) (o : ops K) (ii hh : K), TomoRing o ii hh ->
-  forall (solve : nat -> (nat -> nat -> K) -> (nat -> K) -> nat -> K) (U V : nat -> nat -> K) (req : list mstr) (i3 : K),
-    pinv_contract (o:=o) solve -> lunit o 2 V -> Permutation req (req_canonical 1 false) ->
-    kmul o (kadd o (kadd o (k1 o) (k1 o)) (k1 o)) i3 = k1 o ->
-    gf_process o ii solve 1 req (process_ideal o ii hh 1 V (istrings li_inputs 1) req) U
-    = Ok (kmul o (kadd o (kmul o (trace o 2 (mmul o 2 (madj o U) V)) (kconj o (trace o 2 (mmul o 2 (madj o U) V))))
-                         (ofnat o 2))
-                 (kinv o (kmul o (ofnat o 2) (kadd o (ofnat o 2) (k1 o))))).
-Proof. exact (fun K o ii hh TR => gate_fidelity_formula (TR:=TR)). Qed.
+  forall (n : nat) (solve : nat -> (nat -> nat -> K) -> (nat -> K) -> nat -> K) (U V : nat -> nat -> K) (req : list mstr) (inv : K),
+    1 <= n -> pinv_contract (o:=o) solve -> lunit o (2 ^ n) V -> Permutation req (req_canonical n false) ->
+    kmul o (kadd o (ofnat o (2 ^ n)) (k1 o)) inv = k1 o ->
+    gf_process o ii solve n req (process_ideal o ii hh n V (istrings li_inputs n) req) U
+    = Ok (kmul o (kadd o (kmul o (trace o (2 ^ n) (mmul o (2 ^ n) (madj o U) V))
+                                 (kconj o (trace o (2 ^ n) (mmul o (2 ^ n) (madj o U) V))))
+                         (ofnat o (2 ^ n)))
+                 (kinv o (kmul o (ofnat o (2 ^ n)) (kadd o (ofnat o (2 ^ n)) (k1 o))))).
+Proof. exact (fun K o ii hh TR => gate_fidelity_formula_n (TR:=TR)). Qed.
 Print Assumptions C16_gate_fidelity_formula.
 
 (* target = the gate itself: fidelity one *)
 Theorem C16_gate_fidelity_same :
   forall (K : Type) (o : ops K) (ii hh : K), TomoRing o ii hh ->
-  forall (solve : nat -> (nat -> nat -> K) -> (nat -> K) -> nat -> K) (V : nat -> nat -> K) (req : list mstr) (i3 : K),
-    pinv_contract (o:=o) solve -> unitary o 2 V -> Permutation req (req_canonical 1 false) ->
-    kmul o (kadd o (kadd o (k1 o) (k1 o)) (k1 o)) i3 = k1 o ->
-    gf_process o ii solve 1 req (process_ideal o ii hh 1 V (istrings li_inputs 1) req) V = Ok (k1 o).
-Proof. exact (fun K o ii hh TR => gate_fidelity_same (TR:=TR)). Qed.
+  forall (n : nat) (solve : nat -> (nat -> nat -> K) -> (nat -> K) -> nat -> K) (V : nat -> nat -> K) (req : list mstr) (inv : K),
+    1 <= n -> pinv_contract (o:=o) solve -> unitary o (2 ^ n) V -> Permutation req (req_canonical n false) ->
+    kmul o (kadd o (ofnat o (2 ^ n)) (k1 o)) inv = k1 o ->
+    gf_process o ii solve n req (process_ideal o ii hh n V (istrings li_inputs n) req) V = Ok (k1 o).
+Proof. exact (fun K o ii hh TR => gate_fidelity_same_n (TR:=TR)). Qed.
 Print Assumptions C16_gate_fidelity_same.
 
 (* ------------------------------------------------------------- maximum likelihood *)
@@ -207,15 +210,17 @@ Print Assumptions C16_tp_proj_spec.
 
 (* ---- the hypotheses are satisfiable; statements checked by computation ---- *)
 (* Ry(cos = 3/5, sin = 4/5) is unitary and not symmetric, S is unitary and complex; a
-   permuted setting list; 1/3 exists in Q(sqrt 2)(i) *)
+   permuted setting lists; 1/3 and 1/5 exist in Q(sqrt 2)(i) *)
 Example C16_example_hypotheses :
   unitary qi2ops 2 w_Ry /\ w_Ry 0 1 <> w_Ry 1 0 /\ unitary qi2ops 2 w_S /\
   Permutation (rev (req_canonical 1 false)) (req_canonical 1 false) /\
-  kmul qi2ops (kadd qi2ops (kadd qi2ops (k1 qi2ops) (k1 qi2ops)) (k1 qi2ops)) (qi2_of (qz 1 3) (qz 0 1) (qz 0 1) (qz 0 1))
-  = k1 qi2ops.
+  Permutation (rev (req_canonical 2 false)) (req_canonical 2 false) /\
+  kmul qi2ops (kadd qi2ops (ofnat qi2ops (2 ^ 1)) (k1 qi2ops)) (qi2_of (qz 1 3) (qz 0 1) (qz 0 1) (qz 0 1)) = k1 qi2ops /\
+  kmul qi2ops (kadd qi2ops (ofnat qi2ops (2 ^ 2)) (k1 qi2ops)) (qi2_of (qz 1 5) (qz 0 1) (qz 0 1) (qz 0 1)) = k1 qi2ops.
 Proof.
   split; [exact w_Ry_unitary|]. split; [exact w_Ry_not_symmetric|]. split; [exact w_S_unitary|].
-  split; [apply Permutation_sym, Permutation_rev|exact w_third].
+  split; [apply Permutation_sym, Permutation_rev|]. split; [apply Permutation_sym, Permutation_rev|].
+  split; [exact w_third|exact w_fifth].
 Qed.
 
 (* LI executed on the noiseless data of Ry with a concrete realisation of pinv (the left
